@@ -39,6 +39,14 @@ Theorem C04_ps_callbacks : forall conv lut g s, Inv conv s -> wf_group g ->
 Proof. intros conv lut g s I W. exact (ps_callbacks conv lut g s I W). Qed.
 Print Assumptions C04_ps_callbacks.
 
+(* Programme Type Name (group 10A): likewise *)
+Theorem C04_ptyn_callbacks : forall conv lut g s, Inv conv s -> wf_group g -> b_group (gb g) = 10 -> b_ver (gb g) = 0 ->
+  filter (isf FPTYN) (snd (process conv lut g s)) =
+  if negb (cells_eqb (cells (ptyn (fst (process conv lut g s)))) (cells (ptyn s))) && negb (cb s FPTYN =? 0)
+  then [mkev FPTYN (cb s FPTYN) (ud s) ANone (SmText (tsnap_of (ptyn (fst (process conv lut g s)))))] else [].
+Proof. intros conv lut g s I W G V. exact (ptyn_callbacks_10A conv lut g s I W G V). Qed.
+Print Assumptions C04_ptyn_callbacks.
+
 (* no callback at all outside a successful parse call *)
 Theorem C04_only_parse_calls_notify : forall conv lut s o,
   op_group o = None -> snd (step conv lut s o) = [].
@@ -48,7 +56,7 @@ Proof.
 Qed.
 Print Assumptions C04_only_parse_calls_notify.
 
-(* PARTIAL: for PTYN, RT (incl. the switch that discards a text) and the AF list the
+(* PARTIAL: for RT (incl. the switch that discards a text) and the AF list the
    statement "callback iff changed, sample = new value" is part of obs_C04 and is evaluated on the
    model (Example) and on the library (check) but is not yet proved for all runs; the `changed`
    flag of a text block is proved to be "some addressed cell changed" (upd_string_spec / changed2). *)
